@@ -6,6 +6,7 @@ import (
 	"log/slog"
 	"net/http"
 	"net/textproto"
+	"slices"
 	"strconv"
 	"strings"
 	"time"
@@ -236,6 +237,9 @@ func (w *responseWriter) writeHeader(status int) error {
 		// Ignore "Trailer:" prefixed headers
 		if strings.HasPrefix(k, http.TrailerPrefix) {
 			continue
+		}
+		if slices.Contains(invalidHeaderFields[:], strings.ToLower(k)) {
+			continue // connection-specific fields must not be sent on HTTP/3
 		}
 		for index := range v {
 			name := strings.ToLower(k)
